@@ -77,7 +77,7 @@ def ppp_st(d, allow_open=True):
 
 def frac_st(N, d):
     el = st.one_of(st.integers(0, 1023).map(lambda k: k / 1024.0), fl(0.0, 1.0, exclude_max=True))
-    return hnp.arrays(np.float64, (N, d), elements=el)
+    return hnp.arrays(np.float64, (N, d), elements=el, fill=st.nothing())
 
 
 @st.composite
@@ -122,7 +122,7 @@ def frac_config_st(draw, d, nmin=2, nmax=40, kinds=("gas", "lattice", "cluster")
             f = np.vstack([f, extra])
         jit = draw(st.sampled_from([0.0, 1e-3, 1e-2] if exact_lattice else [1e-3, 1e-2]))
         if jit:
-            noise = draw(hnp.arrays(np.float64, f.shape, elements=fl(-1.0, 1.0)))
+            noise = draw(hnp.arrays(np.float64, f.shape, elements=fl(-1.0, 1.0), fill=st.nothing()))
             f = (f + jit * noise) % 1.0
         return f, f"lattice-{name}" + ("-jit" if jit else "")
     N = draw(st.integers(nmin, nmax))
@@ -131,7 +131,7 @@ def frac_config_st(draw, d, nmin=2, nmax=40, kinds=("gas", "lattice", "cluster")
         centres = draw(frac_st(nc, d))
         which = draw(st.lists(st.integers(0, nc - 1), min_size=N, max_size=N))
         width = draw(st.sampled_from([0.02, 0.05, 0.1]))
-        noise = draw(hnp.arrays(np.float64, (N, d), elements=fl(-1.0, 1.0)))
+        noise = draw(hnp.arrays(np.float64, (N, d), elements=fl(-1.0, 1.0), fill=st.nothing()))
         return (centres[which] + width * noise) % 1.0, "cluster"
     return draw(frac_st(N, d)), "gas"
 
